@@ -725,6 +725,10 @@ theorem insertObject_sim {e e' : Engine} (h : EngSim e e') {o o' : Obj} (ho : Ob
       · exact rfl
       split
       · exact rfl
+      split
+      · exact rfl
+      split
+      · exact rfl
       exact ⟨h.namespaces, h.pods, h.netpols, rfl, rfl, h.banp, rfl⟩
     | banp b =>
       simp only [insertObject, insertBANP, ← h.exposure, ← h.banp]
